@@ -150,7 +150,7 @@ class C03(Property):
             return out
         tcs = [c for c in spec["comps"] if c["type"] == "time"]
         # bounded progress
-        dsum = sum(max(c["steps"]) for c in tcs) + sum(a[1] for ln in spec["links"] for a in ln["chain"] if a[0] == "dfix")
+        dsum = sum(max(c["steps"]) * c.get("publish_every", 1) for c in tcs) + sum(a[1] for ln in spec["links"] for a in ln["chain"] if a[0] == "dfix")
         bound = sum(math.ceil((end + dsum - c["start"]) / min(c["steps"])) for c in tcs) + len(tcs)
         if rep.n_updates > bound:
             out.viol("too_many_updates", f"{rep.n_updates} updates, bounded-progress cap {bound}", spec=spec)
